@@ -96,6 +96,8 @@ def chunk_text(r):
         return body
     if t == "rule":
         return '@charset "%s";\n%s' % (e, body)
+    if t == "rule-other":
+        return '@charset "%s";\n%s' % ("koi8-r" if e != "koi8-r" else "iso-8859-1", "a { left: 0 } b { top: 0 }")     # ASCII body: decodable either way
     if t == "rulecut":
         return '@charset "%s' % e      # the input ends inside the rule
     return ""
@@ -123,16 +125,27 @@ def chunk(r):
             return None      # nothing explicit in the bytes: the given encoding decides (covered by the round-trip rows)
     given = e if not noforce else ("koi8-r" if e == "iso-8859-1" else "iso-8859-1")
     kw = {"force": False} if noforce else {}
+    auto = cls.endswith("-auto")
+    if auto:
+        cls = cls[:-len("-auto")]
+        kw = None
     try:
         if cls in ("incdec", "reader"):
-            data = cc.encode(text, encoding=e)[0]
+            if auto:
+                # the plain bytes of the text in that encoding (python's codec: a BOM only where the encoding's name implies one)
+                try:
+                    data = text.encode(e)
+                except UnicodeEncodeError:
+                    return None
+            else:
+                data = cc.encode(text, encoding=e)[0]
             try:
-                oneshot = cc.decode(data, encoding=given, **kw)[0]
+                oneshot = cc.decode(data)[0] if auto else cc.decode(data, encoding=given, **kw)[0]
             except Exception:
                 return {"out": "ok", "oneshot": [], "concat": [], "oneshot_error": True}
             ps = pieces(data, r["cuts"], r["every"])
             if cls == "incdec":
-                d = codecs.getincrementaldecoder("css")(encoding=given, **kw)
+                d = codecs.getincrementaldecoder("css")() if auto else codecs.getincrementaldecoder("css")(encoding=given, **kw)
                 out = "".join(d.decode(p, False) for p in ps) + d.decode(b"", True)
             else:
                 class Feeder(io.RawIOBase):      # a stream that hands out exactly the scheduled chunks
@@ -144,7 +157,7 @@ def chunk(r):
 
                     def readable(self):
                         return True
-                rd = codecs.getreader("css")(Feeder(ps), encoding=given, **kw)
+                rd = codecs.getreader("css")(Feeder(ps)) if auto else codecs.getreader("css")(Feeder(ps), encoding=given, **kw)
                 out, n = "", 0
                 while True:
                     s = rd.read()
@@ -157,16 +170,16 @@ def chunk(r):
             return {"out": "ok", "oneshot": list(map(ord, oneshot)), "concat": list(map(ord, out)), "oneshot_error": False}
         else:
             try:
-                oneshot = cc.encode(text, encoding=e)[0]
+                oneshot = cc.encode(text)[0] if auto else cc.encode(text, encoding=e)[0]
             except Exception:
                 return {"out": "ok", "oneshot": [], "concat": [], "oneshot_error": True}
             ps = pieces(text, r["cuts"], r["every"])
             if cls == "incenc":
-                en = codecs.getincrementalencoder("css")(encoding=e)
+                en = codecs.getincrementalencoder("css")() if auto else codecs.getincrementalencoder("css")(encoding=e)
                 out = b"".join((en.encode(p, False) or b"") for p in ps) + (en.encode("", True) or b"")
             else:
                 buf = io.BytesIO()
-                w = codecs.getwriter("css")(buf, encoding=e)
+                w = codecs.getwriter("css")(buf) if auto else codecs.getwriter("css")(buf, encoding=e)
                 for p in ps:
                     w.write(p)
                 out = buf.getvalue()
